@@ -33,7 +33,7 @@ for fn in ("/tmp/mutout10/CONFIRM.tsv", "/tmp/rebased/CONFIRM2.tsv"):
         p = l.rstrip("\n").split("\t")
         if len(p) >= 4: confirm[p[0].replace("-m", "-w")] = p[1:]
 sens = {}
-for fn in ("/tmp/sens10.log", "/tmp/sens10b.log", "/tmp/sens10c.log", "/tmp/sens10t.log"):
+for fn in ("/tmp/sens10.log", "/tmp/sens10b.log", "/tmp/sens10c.log", "/tmp/sens10d.log", "/tmp/sens10e.log"):
     try:
         for l in open(fn, errors="replace"):
             m = re.match(r"^(C\d+-w\d) (C\d+) exit=(\d+) ?(.*)$", l.strip())
